@@ -77,7 +77,8 @@ func (m *ModelServer) relativeAdjustment(relative map[string]int32) resource.Upd
 			// find the value index in our supported values, and adjust the value to the new index based on adjustment
 			for i, value := range values {
 				if value.Name == oldValue {
-					newI := (int32(i) + adjustment) % int32(len(values))
+					// reduce the step first: i plus a step near the int32 limits overflows
+					newI := (int32(i) + adjustment%int32(len(values))) % int32(len(values))
 					if newI < 0 {
 						newI = int32(len(values)) + newI
 					}
